@@ -37,6 +37,8 @@ struct State {
     deadlock: bool,
     lock_points: usize,
     mutex_names: Vec<usize>,
+    /// consecutive scheduling points at which the running thread kept the baton although another thread was enabled
+    streak: usize,
 }
 
 struct Baton {
@@ -80,6 +82,22 @@ impl Baton {
             self.cv.notify_all();
             return;
         }
+        // Fairness (waiting made visible): code that polls or retries under a lock would keep the baton forever under
+        // "choice 0 = keep running". After FAIR consecutive points of one thread with others enabled, the canonical
+        // order puts that thread LAST - a deterministic function of the history, so prefixes replay exactly - and the
+        // switch is logged as a yield, not as a preemption. The unchanged tree never gets near FAIR points per thread.
+        const FAIR: usize = 64;
+        const HORIZON: usize = 20000;
+        let mut fair_yield = false;
+        if enabled.len() > 1 && enabled[0] == me && st.streak >= FAIR {
+            enabled.rotate_left(1);
+            fair_yield = true;
+        }
+        if st.step > HORIZON {
+            st.error = Some(format!("horizon: more than {} scheduling points in one execution (livelock?)", HORIZON));
+            drop(st);
+            report_and_exit(self);
+        }
         let choice = if st.step < st.prefix.len() {
             st.prefix[st.step]
         } else {
@@ -94,11 +112,16 @@ impl Baton {
             report_and_exit(self);
         }
         let chosen = enabled[choice];
-        let preempt = st.status[me] == St::Runnable && chosen != me;
+        let preempt = st.status[me] == St::Runnable && chosen != me && !fair_yield;
+        if chosen == me && enabled.len() > 1 {
+            st.streak += 1;
+        } else {
+            st.streak = 0;
+        }
         let mname = mutex.map(|m| Self::mutex_name(&mut st, m));
         let step = st.step;
         st.log.push(json!({"step": step, "at": why, "thread": me, "mutex": mname,
-                           "enabled": enabled, "choice": choice, "chosen": chosen, "preempt": preempt}));
+                           "enabled": enabled, "choice": choice, "chosen": chosen, "preempt": preempt, "fair_yield": fair_yield}));
         st.step += 1;
         st.current = Some(chosen);
         self.cv.notify_all();
@@ -206,6 +229,7 @@ pub fn main(args: &[String]) {
             deadlock: false,
             lock_points: 0,
             mutex_names: Vec::new(),
+            streak: 0,
         }),
         cv: Condvar::new(),
     });
